@@ -375,6 +375,21 @@ func checkC04(r *core.Run) {
 			}
 		}
 	}
+	// an earlier attribute of the element must not weaken what a later attribute or the content demands (script type,
+	// language, link as, input type, ... are values an engine could be tempted to interpret)
+	priors := []string{`type="module"`, `type="MODULE"`, `type="text/ecmascript; charset=utf-8"`, `type="importmap"`, `type="text/html"`, `type="text/template"`, `type="text/x-template"`, `type="application/json"`,
+		`type="application/ld+json"`, `type="text/plain"`, `type=""`, `type="speculationrules"`, `type="image"`, `type="text/css"`, `language="vbscript"`, `as="image"`, `as="style"`, `media="print"`, `name="x"`, `is="x-y"`,
+		`itemprop="url"`, `sandbox=""`, `download=""`, `defer`, `data-x="1"`, `http-equiv="refresh"`, `charset="utf-8"`, `nomodule`, `crossorigin="anonymous"`}
+	for _, e := range []string{"script", "style", "a", "iframe", "img", "object", "embed", "input", "button", "meta", "base", "form", "textarea", "title", "source", "area"} {
+		for _, pa := range priors {
+			for _, target := range []string{"", "src", "href", "action", "formaction", "value", "srcset", "content", "data", "style", "id"} {
+				rv := tab.Class(e, target)
+				for _, el := range []string{e + " " + pa, e + " title=\"x\" " + pa} {
+					cjobs = append(cjobs, cj{cellText(el, target, "\"", ""), rv, "earlier-attribute"})
+				}
+			}
+		}
+	}
 	// a solidus before '>' does not close a non-void element for a tokenizer: the action is still in its content
 	voids := map[string]bool{"area": true, "base": true, "br": true, "col": true, "embed": true, "hr": true, "img": true, "input": true, "keygen": true, "link": true, "meta": true, "param": true, "source": true, "track": true, "wbr": true}
 	for _, e := range els {
